@@ -61,3 +61,63 @@ def r_no_reordering(repo, rep, R, targets, what):
                   '%s keeps %s in the order read' % (q, what),
                   '%s reorders %s: `%s` (string keys sort 10 before 2; the n-th result no longer belongs to the n-th sentence / rank)' % (q, what, hits[0][1] if hits else ''))
     return n
+
+
+def r_module_state(repo, rep, R, rels, consequence, only=None):
+    """module-level objects (buffers, caches, counters) are shared by every call: none of them may be written to by a
+    function, through local aliases either.  -> number of module-level objects seen.  `only`: restrict to these
+    function names."""
+    from .rules_pyx import MUTATORS as rp_MUTATORS
+    # module-level objects of the printers are shared by every rendering: none of them may be written to by a function
+    # (a reused buffer, a cache, a counter make the n-th rendering depend on the ones before it)
+    PURE_MAKERS = {'re.compile', 'frozenset', 'tuple', 'namedtuple', 'TypeVar', 'logging.getLogger', 'getLogger', 'str', 'int', 'float'}
+    WRITES = set(rp_MUTATORS) | {'write', 'writelines', 'seek', 'truncate', 'read', 'readline', 'add', 'discard', 'sort', 'reverse', 'close', 'flush'}
+    n_shared = 0
+    for rel in rels:
+        mod = repo.module(rel)
+        shared = {}
+        for st_ in mod.tree.body:
+            if isinstance(st_, (ast.Assign, ast.AnnAssign)) and st_.value is not None:
+                v = st_.value
+                is_obj = (isinstance(v, ast.Call) and src(v.func) not in PURE_MAKERS) or isinstance(v, (ast.List, ast.Dict, ast.Set, ast.ListComp, ast.DictComp, ast.SetComp))
+                if is_obj:
+                    for t in (st_.targets if isinstance(st_, ast.Assign) else [st_.target]):
+                        if isinstance(t, ast.Name):
+                            shared[t.id] = st_
+        n_shared += len(shared)
+        for fn in [f for f in ast.walk(mod.tree) if isinstance(f, ast.FunctionDef) and (only is None or f.name in only)]:
+            local = {a.arg for a in fn.args.args + fn.args.kwonlyargs} | {t.id for n_ in ast.walk(fn) if isinstance(n_, ast.Name) and isinstance(n_.ctx, ast.Store) for t in [n_]}
+            # local names that are just another name for a shared object
+            alias = {}
+            for _ in range(2):
+                for n_ in ast.walk(fn):
+                    if isinstance(n_, ast.Assign) and isinstance(n_.value, ast.Name) and \
+                            ((n_.value.id in shared and n_.value.id not in local) or n_.value.id in alias):
+                        for t in n_.targets:
+                            if isinstance(t, ast.Name):
+                                alias[t.id] = alias.get(n_.value.id, n_.value.id)
+                    if isinstance(n_, ast.With):
+                        for it in n_.items:
+                            if isinstance(it.context_expr, ast.Name) and it.context_expr.id in shared and isinstance(it.optional_vars, ast.Name):
+                                alias[it.optional_vars.id] = it.context_expr.id
+            shared_here = dict(shared)
+            for a_, b_ in alias.items():
+                shared_here[a_] = shared[b_]
+            local = local - set(alias)
+            for n_ in ast.walk(fn):
+                hit = None
+                if isinstance(n_, ast.Call) and isinstance(n_.func, ast.Attribute) and isinstance(n_.func.value, ast.Name) \
+                        and n_.func.value.id in shared_here and n_.func.value.id not in local and n_.func.attr in WRITES:
+                    hit = (n_.func.value.id, '.%s()' % n_.func.attr)
+                if isinstance(n_, ast.Call):
+                    for kw in n_.keywords:
+                        if kw.arg == 'file' and isinstance(kw.value, ast.Name) and kw.value.id in shared_here and kw.value.id not in local:
+                            hit = (kw.value.id, 'written to through file=')
+                if isinstance(n_, (ast.Subscript, ast.Attribute)) and isinstance(n_.ctx, (ast.Store, ast.Del)) and isinstance(n_.value, ast.Name) \
+                        and n_.value.id in shared_here and n_.value.id not in local:
+                    hit = (n_.value.id, 'item / attribute assigned')
+                if hit:
+                    rep.violation(R, '%s:%s %s' % (rel, n_.lineno, qualname_of(fn)), '%s:%s:module-state:%s' % (rel, qualname_of(fn), hit[0]),
+                                  '%s writes to the module-level object `%s` (%s): %s'
+                                  % (qualname_of(fn), hit[0], hit[1], consequence))
+    return n_shared
